@@ -69,7 +69,7 @@ ViolationAt(k) ==
 D4 == \A k \in 1..N : ViolationAt(k) # 0 /\ k < N =>
         IF proto = "GWS" THEN IsOut(k + 1, "close") /\ hist[k + 1].n = ViolationAt(k)
         ELSE ViolationAt(k) = 4409 \/ IsOut(k + 1, "close") \/ IsOut(k + 1, "error")
-D5 == \A k \in 1..N : /\ IsOut(k, "close") => \A j \in (k + 1)..N : hist[j].k = "out" => hist[j].t = "none"
+D5 == \A k \in 1..N : /\ IsOut(k, "close") => \A j \in (k + 1)..N : hist[j].k = "out" => hist[j].t \in {"none", "pending"}
                       /\ IsOut(k, "none") => \A j \in (k + 1)..N : hist[j].k # "out"
 Decl == D1 /\ D2 /\ D3 /\ D4 /\ D5
 
